@@ -338,9 +338,11 @@ class SelectShim:
                     raise OSError(errno.EBADF, "Bad file descriptor")
             rr = [fd for fd in r if w.net.readable(fd)]
             ww = [fd for fd in w_ if w.net.writable(fd)]
-            if rr or ww:
+            # the third set: exceptional conditions = unread TCP urgent data
+            ee = [fd for fd in e if w.net.exceptional(fd)]
+            if rr or ww or ee:
                 w.note_poll_exit((rr, ww))
-                return rr, ww, []
+                return rr, ww, ee
             if s.block(("select", fds), timeout):
                 w.note_poll_exit(([], []))
                 return [], [], []
